@@ -3,7 +3,7 @@
 generate_life()  -> GenLife.v   (C17)  from
     src/qib/backend/experiment.py            ExperimentStatus members, is_terminal list
     src/qib/backend/wmi/wmi_experiment.py    _initialize (initial status), _from_wmi_status chain,
-                                             query_status guard + results update condition,
+                                             query_status guard + results update condition (in query_status and/or from_json),
                                              results()/wait_for_results() early return, loop condition, tail
     src/qib/backend/wmi/wmi_q*_processor.py  submit_experiment / _send_request / _process_response
     src/qib/util/networking.py               retry loop: initial value, loop condition, increment, handlers, final if
@@ -198,9 +198,12 @@ def gen_initial(cls):
 
 
 def gen_query_status(cls):
+    """query_status and from_json.  The results of a 'finished' reply may be recorded in query_status (after
+    from_json: gen_store), in from_json itself (gen_store_fj: then also for the reply to the submission), or both;
+    whichever block is absent yields the constant false."""
     fn = find_func(cls, "query_status")
     b = body_nodoc(fn)
-    expect(len(b) == 6, "query_status: expected 6 statements, got %d" % len(b))
+    expect(len(b) in (5, 6), "query_status: expected 5 or 6 statements, got %d" % len(b))
     g = b[0]
     expect(isinstance(g, ast.If) and len(g.body) == 1 and isinstance(g.body[0], ast.Raise)
            and isinstance(g.body[0].exc, ast.Call) and u(g.body[0].exc.func) == "ValueError"
@@ -217,20 +220,32 @@ def gen_query_status(cls):
     kw = {k.arg: u(k.value) for k in r.value.keywords}
     expect(kw.get("body") == "{'job_id': self._job_id}", "query_status: request body is %s" % kw.get("body"))
     expect(isinstance(b[3], ast.Expr) and u(b[3]) == "self.from_json(response.json())", "query_status: from_json call")
-    s = b[4]
-    expect(isinstance(s, ast.If) and not s.orelse and len(s.body) == 1 and isinstance(s.body[0], ast.Assign)
-           and u(s.body[0]) == "self._results = WMIExperimentResults(self).from_json(response.json())",
-           "query_status: results update")
-    c3 = status_bool(s.test, "self", "query_status")
-    expect(isinstance(b[5], ast.Return) and u(b[5].value) == "self.status", "query_status: final return")
+    c3 = "false"
+    if len(b) == 6:
+        s = b[4]
+        expect(isinstance(s, ast.If) and not s.orelse and len(s.body) == 1 and isinstance(s.body[0], ast.Assign)
+               and u(s.body[0]) == "self._results = WMIExperimentResults(self).from_json(response.json())",
+               "query_status: results update")
+        c3 = status_bool(s.test, "self", "query_status")
+    expect(isinstance(b[-1], ast.Return) and u(b[-1].value) == "self.status", "query_status: final return")
     fj = find_func(cls, "from_json")
-    expect([u(x) for x in body_nodoc(fj)] == ["self._job_id = json['job_id']",
-                                             "self._execution_datetime = json['execution_datetime']",
-                                             "self._from_wmi_status(json['status'])", "return self"],
-           "from_json: unexpected body")
+    expect([a.arg for a in fj.args.args] == ["self", "json"], "from_json: arguments")
+    fb = body_nodoc(fj)
+    expect(len(fb) in (4, 5) and [u(x) for x in fb[:3]] == ["self._job_id = json['job_id']",
+                                                           "self._execution_datetime = json['execution_datetime']",
+                                                           "self._from_wmi_status(json['status'])"]
+           and u(fb[-1]) == "return self", "from_json: unexpected body")
+    c4 = "false"
+    if len(fb) == 5:
+        s = fb[3]
+        expect(isinstance(s, ast.If) and not s.orelse and len(s.body) == 1 and isinstance(s.body[0], ast.Assign)
+               and u(s.body[0]) == "self._results = WMIExperimentResults(self).from_json(json)",
+               "from_json: results update")
+        c4 = status_bool(s.test, "self", "from_json")
     return ("Definition gen_guard (s : status) : guard :=\n  "
             "  if %s then GRefuse else if %s then GReturn else GRequest.\n" % (c1, c2)
-            + "Definition gen_store (s : status) : bool := %s.\n" % c3)
+            + "Definition gen_store (s : status) : bool := %s.\n" % c3
+            + "Definition gen_store_fj (s : status) : bool := %s.\n" % c4)
 
 
 def gen_results(cls):
@@ -364,7 +379,7 @@ def generate_life():
            gen_results(cls), gen_processors(), gen_retry(),
            "Definition gen_tables : tables :=\n"
            "  {| tb_initial := gen_initial; tb_status := gen_from_wmi_status; tb_terminal := gen_is_terminal;\n"
-           "     tb_guard := gen_guard; tb_store := gen_store; tb_fast_b := gen_fast_b; tb_tail_b := gen_tail_b;\n"
+           "     tb_guard := gen_guard; tb_store := gen_store; tb_store_fj := gen_store_fj; tb_fast_b := gen_fast_b; tb_tail_b := gen_tail_b;\n"
            "     tb_fast_a := gen_fast_a; tb_tail_a := gen_tail_a; tb_submit_raises := gen_submit_raises;\n"
            "     tb_init := gen_retry_init; tb_cond := gen_retry_cond; tb_incr := gen_retry_incr;\n"
            "     tb_final := gen_retry_final |}.\n"]
@@ -515,7 +530,9 @@ def check_qobj_shapes(cls):
     d = b[2].value
     expect(isinstance(d, ast.Dict), "WMIExperiment.as_qasm: qobj is not a dict literal")
     want = {"n_qubits": "len(qubits)", "memory_slots": "len(clbits)", "qreg_sizes": "{'q': len(qubits)}",
-            "creg_sizes": "{'c': len(clbits)}", "instructions": "self.instructions",
+            "creg_sizes": "{'c': len(clbits)}",
+            # the instruction list serialised at construction, handed out as it is or as a private copy
+            "instructions": ("self.instructions", "deepcopy(self.instructions)", "copy.deepcopy(self.instructions)"),
             "qubit_labels": "{'qubits': [['q', qubit.index] for qubit in qubits]}",
             "clbit_labels": "{'clbits': [['c', clbit] for clbit in clbits]}",
             "shots": "self.options.shots", "init_qubits": "self.options.init_qubits",
@@ -525,7 +542,8 @@ def check_qobj_shapes(cls):
         if isinstance(node, ast.Dict):
             for k, v in zip(node.keys, node.values):
                 if isinstance(k, ast.Constant) and k.value in want:
-                    expect(u(v) == want[k.value], "WMIExperiment.as_qasm: %s is %s" % (k.value, u(v)))
+                    alts = want[k.value] if isinstance(want[k.value], tuple) else (want[k.value],)
+                    expect(u(v) in alts, "WMIExperiment.as_qasm: %s is %s" % (k.value, u(v)))
                     seen[k.value] = seen.get(k.value, 0) + 1
     expect(seen.get("n_qubits") == 3 and seen.get("memory_slots") == 3 and all(k in seen for k in want),
            "WMIExperiment.as_qasm: header fields %s" % seen)
@@ -537,7 +555,8 @@ def check_qobj_shapes(cls):
            and [u(x) for x in gc[0].body] == [
                "n_qubits = len(self._experiment_ref.circuit.particles())",
                "return {str(bin(int(key, 16))).split('b')[1].zfill(n_qubits): value for key, value in self._counts.items()}"]
-           and u(gc[1]) == "return self._counts", "get_counts: unexpected body")
+           and u(gc[1]) in ("return self._counts", "return dict(self._counts)", "return self._counts.copy()"),
+           "get_counts: unexpected body")
     circ = find_class(parse("src/qib/circuit/circuit.py"), "Circuit")
     expect([u(x) for x in body_nodoc(find_func(circ, "particles"))] == [
         "wires_set = set()", "for gate in self.gates:\n    wires_set.update(gate.particles())",
